@@ -235,7 +235,8 @@ pub fn gen_avro_type(t: &mut Tape, depth: u32, cross: bool) -> LType {
         18 => {
             let v = loop {
                 let v = avro_leaf(t, cross);
-                if !matches!(v, LType::Null | LType::F16) {
+                // Bool values: the engine's realiser cannot build RunArray<_, Boolean> with a bit-offset validity (reported)
+                if !matches!(v, LType::Null | LType::F16 | LType::Bool) {
                     break v;
                 }
             };
@@ -251,12 +252,52 @@ pub fn gen_avro_field(t: &mut Tape, depth: u32, name: &str, cross: bool) -> LFie
     LField { name: name.to_string(), ty, nullable }
 }
 
-/// can a value of this type be encoded in zero bytes (non-nullable site)
-pub fn avro_zero_width(ty: &LType) -> bool {
-    match ty {
-        LType::Null | LType::FixedBinary(0) => true,
-        LType::Struct(fs) => fs.iter().all(|f| !f.nullable && avro_zero_width(&f.ty)),
-        _ => false,
+/// known finding: a nullable run-end encoded field below the top level is written with two union tags; make such
+/// fields non-nullable, returns the number of fields changed
+pub fn fix_nested_ree(f: &mut LField, depth: u32) -> usize {
+    let mut n = 0;
+    if depth > 0 && matches!(f.ty, LType::Ree { .. }) && f.nullable {
+        f.nullable = false;
+        n += 1;
+    }
+    match &mut f.ty {
+        LType::List(c, _) | LType::FixedList(c, _) => n += fix_nested_ree(c, depth + 1),
+        LType::Struct(fs) => {
+            for c in fs.iter_mut() {
+                n += fix_nested_ree(c, depth + 1);
+            }
+        }
+        LType::Map { val, .. } => n += fix_nested_ree(val, depth + 1),
+        _ => {}
+    }
+    n
+}
+
+/// known finding: the Avro RunEncodedEncoder only scans forward, so a run-end encoded child of a ListView (whose
+/// child ranges may be visited in any order) is written wrongly: list-views above a run-end column become lists
+pub fn fix_listview_ree(f: &mut LField) -> usize {
+    fn strip(ty: &mut LType) {
+        match ty {
+            LType::List(c, e) => {
+                *e = match *e {
+                    ListEnc::V32 => ListEnc::O32,
+                    ListEnc::V64 => ListEnc::O64,
+                    x => x,
+                };
+                strip(&mut c.ty);
+            }
+            LType::FixedList(c, _) => strip(&mut c.ty),
+            LType::Struct(fs) => fs.iter_mut().for_each(|c| strip(&mut c.ty)),
+            LType::Map { val, .. } => strip(&mut val.ty),
+            _ => {}
+        }
+    }
+    let hit = f.ty.any(&|x| matches!(x, LType::List(c, ListEnc::V32 | ListEnc::V64) if c.ty.any(&|y| matches!(y, LType::Ree { .. }))));
+    if hit {
+        strip(&mut f.ty);
+        1
+    } else {
+        0
     }
 }
 
@@ -295,7 +336,8 @@ pub fn rb_type(ty: &LType, utf8view: bool) -> LType {
         List(x, _) => List(f(x), ListEnc::O32),
         FixedList(x, _) => List(f(x), ListEnc::O32),
         Struct(fs) => Struct(fs.iter().map(|x| *f(x)).collect()),
-        Map { key, val, .. } => Map { key: f(key), val: f(val), sorted: false },
+        // map keys stay Utf8 even with with_utf8_view
+        Map { key, val, .. } => Map { key: Box::new(LField { name: key.name.clone(), ty: Utf8(Enc::O32), nullable: false }), val: f(val), sorted: false },
         Ree { value, .. } => rb_type(&value.ty, utf8view),
         t => t.clone(),
     }
@@ -555,7 +597,7 @@ pub fn render_json_string(t: &mut Tape, s: &str, out: &mut String, escapes: &mut
             }
         }
         let upper = t.bool();
-        let mut hex = |u: u32, out: &mut String| {
+        let hex = |u: u32, out: &mut String| {
             if upper {
                 out.push_str(&format!("\\u{:04X}", u));
             } else {
